@@ -1,33 +1,44 @@
 """C15 — saving settings to file is crash-atomic: correspondence + direct oracle.
 
-Real code driven: pyatv.storage.file_storage.FileStorage.save() / load() on a real file
-in a scratch directory under /tmp (removed afterwards).
+Real code driven: pyatv.storage.file_storage.FileStorage.save() / load() on real files in
+a sandbox directory under /tmp (removed afterwards).
 
-While the real save() runs, `builtins.open` / `io.open` and `os.replace`, `os.rename`,
-`os.fsync`, `os.unlink`, `os.remove` are wrapped FROM THE HARNESS (no source hook); files
-opened for writing inside the scratch directory are proxied so that write / flush / close
-are recorded.  The recorded operation trace is
+RECORDING.  While the real save() runs, the file-system primitives are wrapped FROM THE
+HARNESS (no source hook): builtins.open / io.open / _io.open, os.open + os.fdopen +
+os.write + os.close, os.replace / os.rename, os.link, os.unlink / os.remove, os.fsync /
+os.fdatasync; shutil's sendfile / copy_file_range fast paths are switched off so that
+shutil.copyfile / copy / move go through the wrapped open / write / rename.  Files opened
+for writing inside the sandbox are proxied (write / flush / close recorded).  Each operation
+is recorded twice: RAW (lexical path relative to the sandbox, per-open file id) and as a
+MODEL word over path tokens, `p0` being "whatever the settings path denotes" (through a
+symbolic link if it is one).  A primitive the model has no operation for (append / read-
+write opens, hard links, truncate) is sent as an unknown word and reported, never defaulted;
+after every run the raw trace is re-executed on a copy of the initial sandbox and must
+reproduce the real final directory (an unrecorded primitive is thereby reported too).
 
-  * sent to the Lean driver, which evaluates `safeSaveB` (the safe-save shape of theorem
-    `safe_atomic`) and enumerates the target's content at every crash point;
-  * replayed by the harness itself with REAL file-system calls in fresh scratch
-    directories, stopping at every operation boundary and with several persisted prefixes
-    of the data that has been written but not flushed (0, 1, half, all-but-one, all):
-    each such crash state is (a) compared with the model's content for that crash point
-    (correspondence) and (b) loaded with the real load() in a fresh FileStorage — the
-    direct oracle: it must load and equal the complete old or the complete new settings.
+JUDGING a recorded trace
+  * the Lean driver evaluates `safeSaveB` (safe-save shape of theorem `safe_atomic`) and
+    enumerates the target's content at every crash point from the same initial directory;
+  * the harness REALLY re-executes the raw operations step by step in fresh copies of the
+    initial sandbox (same layout: nested directory, symbolic link, leftovers), stopping at
+    every operation boundary and with several persisted prefixes of written-but-unflushed
+    data (0, 1, half, all-but-one, all); each crash state is (a) compared with the model's
+    content for that crash point and (b) loaded by the real load() in a fresh FileStorage
+    through the settings path — the direct oracle: it must load and equal the complete old
+    or the complete new settings.
 
-Fault injection: for every file operation recorded during the ordinary save() the scenario
-is rebuilt and save() runs once more with ONE injected OSError at exactly that operation
-(open, write, flush, fsync, close, replace/rename, unlink; a rename with EBUSY, EXDEV, EACCES
-and EPERM, data operations with EBUSY and ENOSPC).  Whatever the code then does — clean-up,
-retry, a fallback that writes somewhere else — is recorded, judged by the model and
-materialised crash point by crash point for the real load() exactly like the ordinary trace:
-the property demands old-or-new at every instant whether or not an operation failed.
-
-Nothing here depends on the shape of the save: any sequence of the recorded calls is
-judged by its crash states.  A write-mode open the model has no operation for ("a", "x",
-"+") is sent as an unknown op and reported (never defaulted).
+WHAT IS ENUMERATED
+  * ordinary save() for fixed and PRNG (old, new) content pairs;
+  * FAULTS: save() once more per recorded operation with ONE injected OSError at exactly
+    that operation (rename: EBUSY / EXDEV / EACCES / EPERM; data operations EBUSY / ENOSPC);
+    clean-up and fallback paths are recorded and judged like any trace;
+  * PATH KINDS: the settings path in a nested directory, as a symbolic link to a file in the
+    same / in another directory, as a relative path (cwd inside the sandbox), each ordinary
+    and faulted;
+  * INITIAL DIRECTORY: every distinct crash state of a first save() (its leftover temp files
+    and whichever content the target then has) is the initial directory of a second save()
+    of shorter and of longer content; old-or-new is demanded of the second save's crash
+    points and final state.
 """
 import asyncio
 import builtins
@@ -37,23 +48,104 @@ import os
 import shutil
 import tempfile
 
-RULE = ("(old, new) settings-content pairs: fixed kinds (no file -> non-empty, empty device list -> non-empty, "
-        "growing, shrinking to a shorter file, unicode credentials, non-empty -> all devices removed, failing write) "
-        "plus PRNG-generated device lists; every pair is saved once normally and once per recorded file operation with a single "
-        "injected OSError at that operation (rename: EBUSY/EXDEV/EACCES/EPERM); one case = one crash point (operation boundary x persisted prefix) of the "
-        "real save() trace (ordinary or faulted); non-trivial = the crash point lies strictly inside the save (after its first and before "
-        "its last operation) or inside a write; distinct = (pair, boundary, prefix)")
+import _io
+
+RULE = ("scenario = (initial directory, path kind, new content, optional single injected fault); initial directories: "
+        "fixed and PRNG old contents (no file, empty device list, small, large, unicode) and every distinct crash state "
+        "of a previous save() (leftover temp files); path kinds: plain, nested directory, symlink to same/other "
+        "directory, relative path; faults: one OSError at each recorded file operation (rename with 4 errnos); one case "
+        "= one crash point (operation boundary x persisted prefix) of the real save() trace of a scenario; non-trivial "
+        "= the crash point lies strictly inside the save or inside a write; distinct = (scenario, boundary, prefix)")
 ASSUMPTIONS = [
-    "the OS makes rename/replace of a file within one directory atomic (trusted, not modelled further)",
+    "the OS makes rename/replace of a file atomic (trusted, not modelled further)",
     "a dying process loses exactly the data still buffered in its file objects; any prefix of buffered data may "
     "already have reached the file (write-prefix persistence); fsync is irrelevant for process death and is not demanded",
-    "save() performs its file I/O through builtins.open/io.open file objects and os.replace/rename/unlink/remove/fsync "
-    "(checked on every run: the recorded trace replayed on an empty directory must reproduce the real final directory)",
+    "save() performs its file I/O through the wrapped primitives (module docstring); checked on every run: the "
+    "recorded raw trace re-executed on a copy of the initial sandbox must reproduce the real final directory",
+    "os.fsync / os.fdatasync on sandbox files are recorded but not executed during the observed save() (irrelevant for "
+    "process death; keeps the run fast)",
+    "a restarted process may get the same pid (in-process simulation; containers): leftover temp files keep their name",
 ]
-TRUSTED = ["the open()/os.* recording wrappers and the crash-state materialiser of harness/c15.py",
+TRUSTED = ["the recording wrappers and the step-by-step crash-state materialiser of harness/c15.py",
            "OS rename atomicity and prefix persistence of writes"]
 
 UNI = "\U0001F34Fé中"
+PATH_KINDS = ["plain", "nested", "symlink-same", "symlink-other", "relative", "relative-nested"]
+
+
+# --------------------------------------------------------------------------- sandbox layout
+
+def make_layout(root, kind, target_bytes, extras):
+    """Create the initial directory under `root` (must not exist).  Returns
+    (settings path as given to FileStorage, cwd or None, absolute settings path)."""
+    live = os.path.join(root, "live")
+    os.makedirs(live)
+    cwd = None
+    if kind == "plain":
+        given = abs_ = os.path.join(live, "pyatv.conf")
+        real = abs_
+    elif kind == "nested":
+        os.makedirs(os.path.join(live, "a", "b c"))
+        given = abs_ = real = os.path.join(live, "a", "b c", "pyatv.conf")
+    elif kind == "symlink-same":
+        given = abs_ = os.path.join(live, "pyatv.conf")
+        real = os.path.join(live, "real.conf")
+        os.symlink("real.conf", abs_)
+    elif kind == "symlink-other":
+        os.makedirs(os.path.join(live, "home"))
+        os.makedirs(os.path.join(live, "dotfiles"))
+        given = abs_ = os.path.join(live, "home", ".pyatv.conf")
+        real = os.path.join(live, "dotfiles", "pyatv.conf")
+        os.symlink(os.path.join("..", "dotfiles", "pyatv.conf"), abs_)
+    elif kind == "relative":
+        cwd, given = live, "pyatv.conf"
+        abs_ = real = os.path.join(live, "pyatv.conf")
+    elif kind == "relative-nested":
+        os.makedirs(os.path.join(live, "sub"))
+        cwd, given = live, os.path.join("sub", "pyatv.conf")
+        abs_ = real = os.path.join(live, "sub", "pyatv.conf")
+    else:
+        raise ValueError(kind)
+    if target_bytes is not None:
+        with open(real, "wb") as f:
+            f.write(target_bytes)
+    for rel, data in (extras or {}).items():
+        p = os.path.join(root, rel)
+        if os.path.lexists(p):
+            continue
+        os.makedirs(os.path.dirname(p), exist_ok=True)
+        with open(p, "wb") as f:
+            f.write(data)
+    return given, cwd, abs_
+
+
+def listing(root):
+    """{relative path: bytes | ('link', text)} of everything below root."""
+    out = {}
+    for d, dirs, files in os.walk(root):
+        for n in files + [x for x in dirs if os.path.islink(os.path.join(d, x))]:
+            p = os.path.join(d, n)
+            rel = os.path.relpath(p, root)
+            if os.path.islink(p):
+                out[rel] = ("link", os.readlink(p))
+            else:
+                with open(p, "rb") as f:
+                    out[rel] = f.read()
+    return out
+
+
+def read_through(path):
+    try:
+        with open(path, "rb") as f:
+            return f.read()
+    except (FileNotFoundError, NotADirectoryError):
+        return None
+
+
+def entry(p):
+    """the directory entry a rename/unlink/link acts on (final component not followed)"""
+    p = os.path.abspath(p)
+    return os.path.join(os.path.realpath(os.path.dirname(p)), os.path.basename(p))
 
 
 # --------------------------------------------------------------------------- recording
@@ -61,8 +153,8 @@ UNI = "\U0001F34Fé中"
 class _Proxy:
     """Write-mode file object wrapper recording write/flush/close."""
 
-    def __init__(self, rec, fh, path, binary, encoding):
-        self.__dict__.update(_rec=rec, _fh=fh, _path=path, _binary=binary, _enc=encoding or "utf-8", _closed=False)
+    def __init__(self, rec, fh, fid, key, encoding):
+        self.__dict__.update(_rec=rec, _fh=fh, _fid=fid, _key=key, _enc=encoding or "utf-8", _closed=False)
 
     def _bytes(self, data):
         if isinstance(data, str):
@@ -71,10 +163,11 @@ class _Proxy:
 
     def write(self, data):
         rec = self._rec
-        if rec.fail_write and rec.fail_write(self._path):
+        if rec.fail_write:
             raise OSError(28, "No space left on device (injected by harness/c15.py)")
         rec.attempt("write")
-        rec.add(("w", self._path, self._bytes(data)))
+        b = self._bytes(data)
+        rec.add(("w", self._fid, b), "w:%s:%s" % (rec.tok(self._key), b.hex() or "-"))
         return self._fh.write(data)
 
     def writelines(self, lines):
@@ -83,7 +176,7 @@ class _Proxy:
 
     def flush(self):
         self._rec.attempt("flush")
-        self._rec.add(("f", self._path))
+        self._rec.add(("f", self._fid), "f:" + self._rec.tok(self._key))
         return self._fh.flush()
 
     def close(self):
@@ -91,7 +184,7 @@ class _Proxy:
             self.__dict__["_closed"] = True
             # a failing close still releases the descriptor and writes what was buffered:
             # the operation takes effect, then the error is reported
-            self._rec.add(("c", self._path))
+            self._rec.add(("c", self._fid), "c:" + self._rec.tok(self._key))
             self._rec.open_files.discard(self)
             self._fh.close()
             self._rec.attempt("close")
@@ -99,7 +192,7 @@ class _Proxy:
         return self._fh.close()
 
     def truncate(self, *a):
-        self._rec.add(("x-truncate", self._path))
+        self._rec.add(("x", "truncate"), "unknown-truncate")
         return self._fh.truncate(*a)
 
     def __enter__(self):
@@ -117,107 +210,211 @@ class _Proxy:
 
 
 class Recorder:
-    def __init__(self, root, fail_write=None, fault_at=None, fault_errno=16):
-        self.root = os.path.realpath(root)
-        self.ops = []
+    def __init__(self, root, settings_abs, fail_write=False, fault_at=None, fault_errno=16, pid=None):
+        self.root = os.path.abspath(root)
+        self.realroot = os.path.realpath(root)
+        self.settings_abs = settings_abs
+        self.raw, self.words = [], []
         self.open_files = set()
+        self.raw_fds = {}                 # os.open descriptors not (yet) wrapped: fd -> (fid, key)
         self.fail_write = fail_write
-        self.active = False
-        self.fault_at = fault_at          # index of the operation attempt that raises OSError
-        self.fault_errno = fault_errno
-        self.attempts = 0
-        self.fault_kind = None
+        self.fault_at, self.fault_errno = fault_at, fault_errno
+        self.attempts, self.fault_kind = 0, None
+        self.toks = {}
+        self.nfid = 0
+        self.pid = pid                    # the pid the saving process is to see (a restarted process
+                                          # with the pid of the one that left the leftovers)
+
+    # -- paths / tokens
+    def inside(self, p):
+        try:
+            a = os.path.abspath(os.fspath(p))
+            if not isinstance(a, str):
+                a = os.fsdecode(a)
+        except (TypeError, ValueError):
+            return None
+        if a == self.root or a.startswith(self.root + os.sep):
+            return a
+        r = os.path.realpath(a)
+        if r.startswith(self.realroot + os.sep):
+            return a
+        return None
+
+    def rel(self, a):
+        return os.path.relpath(a, self.root)
+
+    def tok(self, key):
+        """model token of an identity path; p0 = what the settings path denotes right now"""
+        if key == os.path.realpath(self.settings_abs) or key == entry(self.settings_abs):
+            return "p0"
+        return self.toks.setdefault(key, "p%d" % (len(self.toks) + 1))
+
+    def add(self, raw, word):
+        self.raw.append(raw)
+        self.words.append(word)
 
     def attempt(self, kind):
-        """Called once per file-system operation (inside the scratch directory) right
-        before it takes effect; the `fault_at`-th one fails instead (single fault)."""
+        """Called once per file-system operation right before it takes effect; the
+        `fault_at`-th one fails instead (single fault)."""
         n = self.attempts
         self.attempts += 1
         if self.fault_at is not None and n == self.fault_at:
             self.fault_kind = kind
             raise OSError(self.fault_errno, "injected fault at file operation %d (%s) by harness/c15.py" % (n, kind))
 
-    def inside(self, p):
-        try:
-            rp = os.path.realpath(os.fspath(p))
-        except TypeError:
-            return None
-        if rp == self.root or rp.startswith(self.root + os.sep):
-            return rp
-        return None
+    def new_fid(self):
+        self.nfid += 1
+        return self.nfid
 
-    def add(self, op):
-        self.ops.append(op)
-
+    # -- patching
     def __enter__(self):
         rec = self
-        self._orig = (builtins.open, io.open, os.replace, os.rename, os.fsync, os.unlink, os.remove)
-        real_open = builtins.open
+        names = [(builtins, "open"), (io, "open"), (_io, "open"), (os, "open"), (os, "fdopen"), (os, "write"),
+                 (os, "close"), (os, "replace"), (os, "rename"), (os, "link"), (os, "unlink"), (os, "remove"),
+                 (os, "fsync"), (os, "fdatasync")]
+        self._orig = [(m, n, getattr(m, n)) for m, n in names if hasattr(m, n)]
+        self._getpid = os.getpid
+        if self.pid is not None:
+            os.getpid = lambda: rec.pid
+        self._shutil = {n: getattr(shutil, n) for n in ("_USE_CP_SENDFILE", "_USE_CP_COPY_FILE_RANGE") if hasattr(shutil, n)}
+        for n in self._shutil:
+            setattr(shutil, n, False)
+        real_open, os_open, os_fdopen = builtins.open, os.open, os.fdopen
+        os_write, os_close = os.write, os.close
+        o_fsync = os.fsync
+        o_fdatasync = getattr(os, "fdatasync", None)
 
-        def open_(file, mode="r", buffering=-1, encoding=None, *a, **k):
-            rp = rec.inside(file) if not isinstance(file, int) else None
-            if rp is None or not any(c in mode for c in "wax+"):
-                return real_open(file, mode, buffering, encoding, *a, **k)
-            rec.attempt("open")
-            if "w" in mode and "+" not in mode:
-                rec.add(("o", rp))
-            else:
-                rec.add(("x-open-" + mode.replace(":", ""), rp))
-            fh = real_open(file, mode, buffering, encoding, *a, **k)
-            px = _Proxy(rec, fh, rp, "b" in mode, encoding)
+        def wrap(fh, fid, key, encoding):
+            px = _Proxy(rec, fh, fid, key, encoding)
             rec.open_files.add(px)
             return px
 
-        o_replace, o_rename, o_fsync, o_unlink, o_remove = self._orig[2:]
+        def open_(file, mode="r", buffering=-1, encoding=None, *a, **k):
+            writing = any(c in mode for c in "wax+")
+            if isinstance(file, int):
+                if file in rec.raw_fds and writing:
+                    fid, key = rec.raw_fds.pop(file)
+                    return wrap(real_open(file, mode, buffering, encoding, *a, **k), fid, key, encoding)
+                return real_open(file, mode, buffering, encoding, *a, **k)
+            ap = rec.inside(file)
+            if ap is None or not writing:
+                return real_open(file, mode, buffering, encoding, *a, **k)
+            rec.attempt("open")
+            key, fid = os.path.realpath(ap), rec.new_fid()
+            if "w" in mode and "+" not in mode and "opener" not in k:
+                rec.add(("o", fid, rec.rel(ap), True), "o:" + rec.tok(key))
+            else:
+                rec.add(("x", "open-" + mode), "unknown-open-" + mode.replace(":", ""))
+            return wrap(real_open(file, mode, buffering, encoding, *a, **k), fid, key, encoding)
 
-        def mv(real):
+        def osopen(path, flags, mode=0o777, *a, **k):
+            ap = rec.inside(path) if not isinstance(path, int) else None
+            acc = flags & (os.O_WRONLY | os.O_RDWR)
+            if ap is None or not acc or k.get("dir_fd") is not None:
+                return os_open(path, flags, mode, *a, **k)
+            rec.attempt("open")
+            key, fid = os.path.realpath(ap), rec.new_fid()
+            if flags & (os.O_APPEND | os.O_RDWR):
+                rec.add(("x", "os.open-%o" % flags), "unknown-os-open-%o" % flags)
+            elif flags & os.O_TRUNC:
+                rec.add(("o", fid, rec.rel(ap), True), "o:" + rec.tok(key))
+            else:
+                rec.add(("o", fid, rec.rel(ap), False), "k:" + rec.tok(key))
+            fd = os_open(path, flags, mode, *a, **k)
+            rec.raw_fds[fd] = (fid, key)
+            return fd
+
+        def fdopen(fd, mode="r", buffering=-1, encoding=None, *a, **k):
+            if fd in rec.raw_fds and any(c in mode for c in "wax+"):
+                fid, key = rec.raw_fds.pop(fd)
+                return wrap(os_fdopen(fd, mode, buffering, encoding, *a, **k), fid, key, encoding)
+            return os_fdopen(fd, mode, buffering, encoding, *a, **k)
+
+        def oswrite(fd, data):
+            if fd in rec.raw_fds:
+                fid, key = rec.raw_fds[fd]
+                rec.attempt("write")
+                b = bytes(data)
+                rec.add(("w", fid, b), "w:%s:%s" % (rec.tok(key), b.hex() or "-"))
+                rec.add(("f", fid), "f:" + rec.tok(key))
+            return os_write(fd, data)
+
+        def osclose(fd):
+            if fd in rec.raw_fds:
+                fid, key = rec.raw_fds.pop(fd)
+                rec.add(("c", fid), "c:" + rec.tok(key))
+            return os_close(fd)
+
+        def mv(real, hard=False):
             def f(src, dst, *a, **k):
                 s, d = rec.inside(src), rec.inside(dst)
-                if (s is not None or d is not None) and os.path.lexists(src):
-                    rec.attempt("rename")
+                if (s is None and d is None) or k.get("src_dir_fd") is not None or k.get("dst_dir_fd") is not None:
+                    return real(src, dst, *a, **k)
+                if os.path.lexists(src):
+                    rec.attempt("link" if hard else "rename")
+                ks = entry(s) if s else "<outside>"
+                kd = entry(d) if d else "<outside>"
+                ts, td = rec.tok(ks), rec.tok(kd)          # tokens before the call takes effect
                 res = real(src, dst, *a, **k)
-                if s is not None or d is not None:
-                    rec.add(("r", s or "<outside>", d or "<outside>"))
+                if hard or s is None or d is None:
+                    rec.add(("l", rec.rel(s), rec.rel(d)) if (s and d) else ("x", "move-outside"),
+                            "unknown-link" if hard else "unknown-move-outside")
+                else:
+                    rec.add(("r", rec.rel(s), rec.rel(d)), "r:%s:%s" % (ts, td))
                     for px in list(rec.open_files):
-                        if px._path == s:
-                            px.__dict__["_path"] = d
+                        if px._key == ks:
+                            px.__dict__["_key"] = kd
                 return res
             return f
 
         def rm(real):
             def f(p, *a, **k):
-                rp = rec.inside(p)
-                if rp is not None and os.path.lexists(p):
+                ap = rec.inside(p)
+                if ap is None or k.get("dir_fd") is not None:
+                    return real(p, *a, **k)
+                if os.path.lexists(p):
                     rec.attempt("unlink")
+                t = rec.tok(entry(ap))
                 res = real(p, *a, **k)
-                if rp is not None:
-                    rec.add(("u", rp))
+                rec.add(("u", rec.rel(ap)), "u:" + t)
                 return res
             return f
 
-        def fsync(fd):
-            hit = None
-            for px in list(rec.open_files):
-                try:
-                    if px._fh.fileno() == (fd if isinstance(fd, int) else fd.fileno()):
-                        hit = px
-                        break
-                except Exception:
-                    pass
-            if hit is not None:
-                rec.attempt("fsync")
-                rec.add(("s", hit._path))
-            return o_fsync(fd)
+        def sync(real):
+            def f(fd):
+                n = fd if isinstance(fd, int) else fd.fileno()
+                hit = None
+                for px in list(rec.open_files):
+                    try:
+                        if px._fh.fileno() == n:
+                            hit = (px._fid, px._key)
+                            break
+                    except Exception:
+                        pass
+                if hit is None and n in rec.raw_fds:
+                    hit = rec.raw_fds[n]
+                if hit is not None:
+                    rec.attempt("fsync")
+                    rec.add(("s", hit[0]), "s:" + rec.tok(hit[1]))
+                    return None        # recorded, not executed: irrelevant for process death, slow on real disks
+                return real(fd)
+            return f
 
-        builtins.open = open_
-        io.open = open_
-        os.replace, os.rename = mv(o_replace), mv(o_rename)
-        os.unlink, os.remove = rm(o_unlink), rm(o_remove)
-        os.fsync = fsync
+        builtins.open = io.open = _io.open = open_
+        os.open, os.fdopen, os.write, os.close = osopen, fdopen, oswrite, osclose
+        os.replace, os.rename, os.link = mv(os.replace), mv(os.rename), mv(os.link, hard=True)
+        os.unlink, os.remove = rm(os.unlink), rm(os.remove)
+        os.fsync = sync(o_fsync)
+        if o_fdatasync:
+            os.fdatasync = sync(o_fdatasync)
         return self
 
     def __exit__(self, *exc):
-        (builtins.open, io.open, os.replace, os.rename, os.fsync, os.unlink, os.remove) = self._orig
+        for m, n, v in self._orig:
+            setattr(m, n, v)
+        os.getpid = self._getpid
+        for n, v in self._shutil.items():
+            setattr(shutil, n, v)
         return False
 
 
@@ -267,6 +464,24 @@ def _fresh_load(loop, path):
     return ("ok", _content(st))
 
 
+def old_bytes_of(loop, root, devs):
+    """The settings file a completed save of `devs` produces (None = no file)."""
+    from pyatv.storage.file_storage import FileStorage
+
+    if devs is None:
+        return None
+    d = tempfile.mkdtemp(prefix="gen", dir=root)
+    p = os.path.join(d, "pyatv.conf")
+    st = FileStorage(p, loop)
+    _populate(loop, st, _uniq(devs))
+    if not st.changed:
+        return (json.dumps({"version": 1, "devices": []}) + "\n").encode()
+    loop.run_until_complete(st.save())
+    data = read_through(p)
+    shutil.rmtree(d, ignore_errors=True)
+    return data
+
+
 # --------------------------------------------------------------------------- crash materialisation
 
 def _prefixes(n, full):
@@ -276,31 +491,27 @@ def _prefixes(n, full):
 
 
 class _Replayer:
-    """Replays a recorded trace with real OS calls in a scratch directory; pending
-    (written, unflushed) data is kept here and only reaches the file on flush/close —
-    or partially at the crash point."""
+    """Re-executes a raw trace with real OS calls in a fresh copy of the initial sandbox;
+    written-but-unflushed data is kept here and reaches the file on flush/close — or
+    partially at the crash point."""
 
-    def __init__(self, root, names, old):
+    def __init__(self, root, kind, target_bytes, extras):
         self.root = root
-        self.names = names            # token -> file name inside root
-        self.fds = {}                 # token -> raw unbuffered file object
-        self.pend = {}
-        os.makedirs(root)
-        if old is not None:
-            with open(self.p("p0"), "wb") as f:
-                f.write(old)
+        _g, _c, self.settings = make_layout(root, kind, target_bytes, extras)
+        self.fds, self.pend = {}, {}
 
-    def p(self, tok):
-        return os.path.join(self.root, self.names[tok])
+    def p(self, rel):
+        return os.path.join(self.root, rel)
 
     def step(self, op):
         k = op[0]
         if k == "o":
-            old = self.fds.pop(op[1], None)
-            if old:
-                old.close()
-            self.fds[op[1]] = open(self.p(op[1]), "wb", buffering=0)
-            self.pend[op[1]] = b""
+            fid, rel, trunc = op[1], op[2], op[3]
+            if trunc:
+                self.fds[fid] = open(self.p(rel), "wb", buffering=0)
+            else:
+                self.fds[fid] = os.fdopen(os.open(self.p(rel), os.O_WRONLY | os.O_CREAT, 0o600), "wb", buffering=0)
+            self.pend[fid] = b""
         elif k == "w":
             self.pend[op[1]] = self.pend.get(op[1], b"") + op[2]
         elif k in ("f", "c"):
@@ -309,76 +520,68 @@ class _Replayer:
                 fh = self.fds.pop(op[1], None)
                 if fh:
                     fh.close()
+                self.pend.pop(op[1], None)
         elif k == "s":
             pass
         elif k == "r":
-            if os.path.exists(self.p(op[1])):
+            if os.path.lexists(self.p(op[1])):
                 os.replace(self.p(op[1]), self.p(op[2]))
-                for d in (self.fds, self.pend):
-                    d.pop(op[2], None)
-                    if op[1] in d:
-                        d[op[2]] = d.pop(op[1])
+        elif k == "l":
+            os.link(self.p(op[1]), self.p(op[2]))
         elif k == "u":
-            if os.path.exists(self.p(op[1])):
+            if os.path.lexists(self.p(op[1])):
                 os.unlink(self.p(op[1]))
-            fh = self.fds.pop(op[1], None)
-            if fh:
-                fh.close()
-            self.pend.pop(op[1], None)
         else:
-            raise ValueError("unknown op %r" % (k,))
+            raise ValueError("unknown op %r" % (op,))
 
-    def _persist(self, tok, k):
-        data = self.pend.get(tok, b"")
+    def _persist(self, fid, k):
+        data = self.pend.get(fid, b"")
         part = data if k is None else data[:k]
-        fh = self.fds.get(tok)
+        fh = self.fds.get(fid)
         if fh is not None and part:
             fh.write(part)
-        self.pend[tok] = data[len(part):]
+        self.pend[fid] = data[len(part):]
+
+    def target_fids(self):
+        try:
+            st = os.stat(self.settings)
+        except OSError:
+            return []
+        out = []
+        for fid, fh in self.fds.items():
+            try:
+                s2 = os.fstat(fh.fileno())
+                if (s2.st_dev, s2.st_ino) == (st.st_dev, st.st_ino) and self.pend.get(fid):
+                    out.append(fid)
+            except OSError:
+                pass
+        return out
+
+    def pending_lengths(self):
+        t = self.target_fids()
+        tp = sum(len(self.pend[f]) for f in t)
+        others = max([len(v) for f, v in self.pend.items() if f not in t] + [0])
+        return tp, others
 
     def crash(self, k):
         """The process dies now: `k` bytes of the target's pending data (or, if the target
         has none, of every other file's) have reached the disk."""
-        if self.pend.get("p0"):
-            self._persist("p0", k)
-        else:
-            for tok in list(self.pend):
-                self._persist(tok, k)
+        t = self.target_fids()
+        for fid in (t if t else list(self.pend)):
+            self._persist(fid, k)
+        self.close_all()
+
+    def close_all(self):
         for fh in self.fds.values():
             fh.close()
         self.fds = {}
-
-    def target(self):
-        try:
-            with open(self.p("p0"), "rb") as f:
-                return f.read()
-        except FileNotFoundError:
-            return None
-
-    def listing(self):
-        out = {}
-        for n in sorted(os.listdir(self.root)):
-            with open(os.path.join(self.root, n), "rb") as f:
-                out[n] = f.read()
-        return out
 
 
 def _hex(b):
     return "~" if b is None else (b.hex() or "-")
 
 
-def _op_word(op, tok):
-    k = op[0]
-    if k == "w":
-        return "w:%s:%s" % (tok(op[1]), op[2].hex() or "-")
-    if k == "r":
-        return "r:%s:%s" % (tok(op[1]), tok(op[2]))
-    if k in ("o", "f", "s", "c", "u"):
-        return "%s:%s" % (k, tok(op[1]))
-    return "unknown-" + k
-
-
-# --------------------------------------------------------------------------- cases
+# --------------------------------------------------------------------------- contents
 
 def _dev(i, cred="cred", pw=None, name=None, extra=None):
     d = {"name": "dev%d" % i,
@@ -390,13 +593,15 @@ def _dev(i, cred="cred", pw=None, name=None, extra=None):
     return d
 
 
+BIG = [_dev(i, cred="c" * 40 + str(i), pw="pw%d" % i, name="Living room %d" % i) for i in range(6)]
+
+
 def fixed_pairs():
-    big = [_dev(i, cred="c" * 40 + str(i), pw="pw%d" % i, name="Living room %d" % i) for i in range(6)]
     return [
         ("nofile->nonempty", None, [_dev(1)], None),
         ("emptylist->nonempty", [], [_dev(1), _dev(2, name="x")], None),
         ("grow", [_dev(1)], [_dev(1), _dev(2), _dev(3, pw="secret")], None),
-        ("shrink", big, [_dev(0, cred="k")], None),
+        ("shrink", BIG, [_dev(0, cred="k")], None),
         ("unicode", [_dev(1, cred=UNI)], [_dev(1, cred=UNI), _dev(2, cred="", name=UNI * 3, extra=UNI)], None),
         ("nonempty->emptylist", [_dev(1), _dev(2)], [], None),
         ("same-length", [_dev(1, cred="aaaa")], [_dev(1, cred="bbbb")], None),
@@ -426,223 +631,188 @@ def _uniq(devs):
     return out
 
 
-# --------------------------------------------------------------------------- one pair
+# --------------------------------------------------------------------------- one scenario
 
-def _scenario(ctx, loop, root, sub, label, old_devs, new_devs):
-    """Build, through the real API, the old settings file and a FileStorage holding the new
-    content that is about to be saved.  Returns None when there is nothing to save."""
+def run_scenario(ctx, loop, sc, full_prefixes, lean_jobs, want_states=False):
+    """sc = {"pair", "kind", "old_hex" (None = no file), "extras" {rel: hex}, "new" devs,
+             "mode" None | "fail" | "fault:<n>:<errno>", "pid" (optional: os.getpid() as seen by save())}.
+    Runs the real save() once and judges the recorded trace.  Returns
+    {"n_ops", "states": distinct crash states [(target bytes, extras)]} or None."""
     from pyatv.storage.file_storage import FileStorage
 
-    work = os.path.join(root, sub)
-    os.makedirs(work)
-    target = os.path.join(work, "pyatv.conf")
-    if old_devs is not None:
-        st0 = FileStorage(target, loop)
-        _populate(loop, st0, _uniq(old_devs))
-        if not st0.changed:
-            # an empty storage does not write: force the canonical empty file
-            with open(target, "w", encoding="utf-8") as f:
-                f.write(json.dumps({"version": 1, "devices": []}) + "\n")
-        else:
-            loop.run_until_complete(st0.save())
-    old_bytes = open(target, "rb").read() if os.path.exists(target) else None
-    obs_old = _fresh_load(loop, target)
-    if obs_old[0] != "ok":
-        ctx.fail("setup:old-file-does-not-load", {"pair": label}, obs_old, "old file loads", "the completely saved old file does not load")
-        return None
-    st = FileStorage(target, loop)
-    loop.run_until_complete(st.load())
-    for s in list(st.settings):
-        loop.run_until_complete(st.remove_settings(s))
-    _populate(loop, st, _uniq(new_devs))
-    if not st.changed:
-        return None
-    return {"work": work, "target": target, "old_bytes": old_bytes, "content_old": obs_old[1],
-            "content_new": _content(st), "storage": st}
-
-
-def _observe(ctx, loop, root, sub, sc, case_base, rec, full_prefixes, lean_jobs):
-    """Run the real save() of scenario `sc` under recorder `rec`; judge the recorded trace:
-    completeness of the recording, final content, every crash state (real load() oracle);
-    queue the trace for the Lean driver.  Returns the number of recorded operations."""
-    st, work, target = sc["storage"], sc["work"], sc["target"]
-    old_bytes, content_old, content_new = sc["old_bytes"], sc["content_old"], sc["content_new"]
-    raised = None
-    with rec:
-        try:
-            loop.run_until_complete(st.save())
-        except Exception as e:
-            raised = type(e).__name__
-    fault = rec.fault_kind
-    ctx.note(("fault:%s:" % fault if fault else "") + ("save-raised:%s" % raised if raised else "save-completed"))
-    final_listing = {n: open(os.path.join(work, n), "rb").read() for n in sorted(os.listdir(work))}
-    new_bytes = final_listing.get("pyatv.conf")
-
-    toks = {os.path.realpath(target): "p0"}
-
-    def tok(p):
-        return toks.setdefault(p, "p%d" % len(toks))
-
-    words = [_op_word(op, tok) for op in rec.ops]
-    names = {t: os.path.basename(p) for p, t in toks.items()}
-    trace = []
-    for op in rec.ops:
-        if op[0] == "w":
-            trace.append(("w", tok(op[1]), op[2]))
-        elif op[0] == "r":
-            trace.append(("r", tok(op[1]), tok(op[2])))
-        else:
-            trace.append((op[0], tok(op[1])))
-    case_base = dict(case_base, trace=words)
-    if fault:
-        case_base["injected_fault"] = {"operation_index": rec.fault_at, "operation": fault}
-    ctx.note(("fault-" if fault else "") + "trace-shape:" + "".join(w[0] for w in words))
-
-    unknown = [w for w in words if w.startswith("unknown-")]
-    # --- completeness of the recording: replaying it must reproduce the real directory
-    okreplay = True
-    try:
-        rp = _Replayer(os.path.join(root, sub + "-full"), names, old_bytes)
-        for op in trace:
-            rp.step(op)
-        for fh in rp.fds.values():
-            fh.close()
-        if rp.listing() != final_listing:
-            okreplay = False
-    except ValueError:
-        okreplay = False
-    if not okreplay or unknown:
-        ctx.disagree(case_base, {"final_dir": {k: v.hex() for k, v in final_listing.items()}},
-                     "recorded trace does not explain the directory / contains operations the model lacks: %s" % unknown,
-                     where="trace recording")
-        if unknown:
-            return len(rec.ops)
-
-    # --- completed save really saved; a save that raised kept old (or already has new)
-    obs_final = _fresh_load(loop, target)
-    if raised is None:
-        if obs_final != ("ok", content_new):
-            ctx.fail("save-complete:content-differs", case_base, obs_final, content_new,
-                     "after a completed save() a fresh load does not give the saved content")
-    else:
-        if obs_final not in (("ok", content_old), ("ok", content_new)):
-            ctx.fail("save-failed:old-content-lost", case_base, obs_final, content_old,
-                     "save() raised %s and the file holds neither the previous nor the new content" % raised)
-        left = [n for n in final_listing if n != "pyatv.conf"]
-        ctx.note("failed-save-leftover-files:%d" % len(left))
-
-    # --- crash points: real materialisation + oracle
-    groups = []
-    for i in range(len(trace) + 1):
-        probe = _Replayer(os.path.join(root, "%s-probe%d" % (sub, i)), names, old_bytes)
-        for op in trace[:i]:
-            probe.step(op)
-        tp = len(probe.pend.get("p0", b""))
-        others = max([len(v) for t, v in probe.pend.items() if t != "p0"] + [0])
-        for fh in probe.fds.values():
-            fh.close()
-        pend_len = tp if tp else others
-        row = {}
-        for k in _prefixes(pend_len, full_prefixes):
-            r = _Replayer(os.path.join(root, "%s-c%d_%d" % (sub, i, k)), names, old_bytes)
-            for op in trace[:i]:
-                r.step(op)
-            r.crash(k)
-            content = r.target()
-            obs = _fresh_load(loop, r.p("p0"))
-            shutil.rmtree(r.root, ignore_errors=True)
-            inside = (0 < i < len(trace)) or k not in (0, pend_len)
-            ctx.case([case_base["pair"], case_base.get("mode"), i, k], inside)
-            ctx.note("crash-point:%s" % ("boundary" if k in (0, pend_len) else "inside-write"))
-            if tp:
-                row[k] = content
-            else:
-                row.setdefault(0, content)
-            if obs not in (("ok", content_old), ("ok", content_new)):
-                if obs[0] == "raises":
-                    kind = "empty-file" if content == b"" else "truncated-file"
-                    sig = "save-crash:%s:load-raises" % kind
-                else:
-                    sig = "save-crash:loads-neither-old-nor-new"
-                if fault:
-                    sig += ":after-failed-" + fault
-                ctx.fail(sig, dict(case_base, crash_after_ops=i, persisted_prefix=k, target_hex=_hex(content)),
-                         obs, "load() gives the complete old or the complete new settings",
-                         "%sprocess death after %d of %d file operations of save() (persisted prefix %d) leaves a settings "
-                         "file that %s" % ("with the %s at file operation %d failing (OSError), " % (fault, rec.fault_at) if fault else "",
-                                           i, len(trace), k, "load() rejects" if obs[0] == "raises" else "is neither old nor new"))
-        shutil.rmtree(probe.root, ignore_errors=True)
-        groups.append((tp, row))
-    lean_jobs.append((case_base, old_bytes, new_bytes if new_bytes is not None else b"", words, groups, raised,
-                      fault, final_listing.get("pyatv.conf")))
-    return len(rec.ops)
-
-
-def run_pair(ctx, loop, label, old_devs, new_devs, mode, full_prefixes, lean_jobs, max_faults=None):
-    """mode: None   = the ordinary save(), then save() once more per recorded file operation
-                      with ONE injected OSError at that operation (fallback/clean-up paths);
-             "fail" = every write raises;
-             "fault:<n>[:<errno>]" = only the run with the fault at operation n (replay)."""
     root = tempfile.mkdtemp(prefix="verif-c15-", dir="/tmp")
+    cwd0 = os.getcwd()
     try:
-        case_base = {"pair": label, "old": old_devs, "new": new_devs, "mode": mode}
-        only_errno = None
+        kind = sc.get("kind") or "plain"
+        old_bytes = None if sc.get("old_hex") is None else bytes.fromhex(sc["old_hex"])
+        extras = {r: bytes.fromhex(h) for r, h in (sc.get("extras") or {}).items()}
+        mode = sc.get("mode")
+        box = os.path.join(root, "box")
+        given, cwd, abs_settings = make_layout(box, kind, old_bytes, extras)
+        initial = listing(box)
+        obs_old = _fresh_load(loop, abs_settings)
+        if obs_old[0] != "ok":
+            ctx.note("scenario-skipped:initial-state-does-not-load")
+            return None
+        content_old = obs_old[1]
+        if cwd:
+            os.chdir(cwd)
+        st = FileStorage(given, loop)
+        loop.run_until_complete(st.load())
+        for s in list(st.settings):
+            loop.run_until_complete(st.remove_settings(s))
+        _populate(loop, st, _uniq(sc["new"]))
+        content_new = _content(st)
+        if not st.changed:
+            ctx.note("scenario-skipped-unchanged")
+            return None
+        fault_at = fault_errno = None
         if isinstance(mode, str) and mode.startswith("fault:"):
             parts = mode.split(":")
-            faults, plain = [int(parts[1])], False
-            only_errno = int(parts[2]) if len(parts) > 2 else None
+            fault_at, fault_errno = int(parts[1]), int(parts[2]) if len(parts) > 2 else 16
+        rec = Recorder(box, abs_settings, fail_write=(mode == "fail"), fault_at=fault_at, fault_errno=fault_errno or 16,
+                       pid=sc.get("pid"))
+        # tokens of files that exist before the save (leftovers) are fixed first
+        init_words = []
+        for rel, data in sorted(initial.items()):
+            if isinstance(data, tuple):
+                continue
+            t = rec.tok(os.path.realpath(os.path.join(box, rel)))
+            if t != "p0":
+                init_words.append("%s:%s" % (t, data.hex() or "-"))
+        raised = None
+        with rec:
+            try:
+                loop.run_until_complete(st.save())
+            except Exception as e:
+                raised = type(e).__name__
+        os.chdir(cwd0)
+        fault = rec.fault_kind
+        ctx.note("kind:" + kind)
+        ctx.note(("fault:%s:" % fault if fault else "") + ("save-raised:%s" % raised if raised else "save-completed"))
+        if fault_at is not None and fault is None:
+            return {"n_ops": len(rec.raw), "states": []}       # the trace has no such operation
+        final_listing = listing(box)
+        final_target = read_through(abs_settings)
+        trace, words = rec.raw, rec.words
+        case = dict(sc, trace=words)
+        if fault:
+            case["injected_fault"] = {"operation_index": fault_at, "operation": fault, "errno": fault_errno}
+        ctx.note(("fault-" if fault else "") + "trace-shape:" + "".join(w[0] if not w.startswith("unknown") else "?" for w in words))
+
+        unknown = [w for w in words if w.startswith("unknown-")]
+        # --- completeness of the recording: re-executing it must reproduce the real directory
+        okreplay = True
+        try:
+            rp = _Replayer(os.path.join(root, "full"), kind, old_bytes, extras)
+            for op in trace:
+                rp.step(op)
+            rp.crash(None)
+            if listing(rp.root) != final_listing:
+                okreplay = False
+        except (ValueError, OSError):
+            okreplay = False
+        if not okreplay or unknown:
+            ctx.disagree(case, {"final_dir": {k: (v.hex() if isinstance(v, bytes) else v) for k, v in final_listing.items()}},
+                         "recorded trace does not explain the directory / contains operations the model lacks: %s" % unknown,
+                         where="trace recording")
+
+        # --- completed save really saved; a save that raised kept old (or already has new)
+        obs_final = _fresh_load(loop, abs_settings)
+        if raised is None:
+            if obs_final != ("ok", content_new):
+                ctx.fail("save-complete:content-differs" + (":leftover-directory" if extras else ""), case, obs_final, content_new,
+                         "after a completed save() a fresh load does not give the saved content"
+                         + (" (the directory held leftovers of an earlier crashed save)" if extras else ""))
         else:
-            faults, plain = None, True
-        n_ops = 0
-        if plain:
-            sc = _scenario(ctx, loop, root, "live", label, old_devs, new_devs)
-            if sc is None:
-                ctx.note("pair-skipped-unchanged")
-                return
-            rec = Recorder(sc["work"], fail_write=(lambda p: True) if mode == "fail" else None)
-            n_ops = _observe(ctx, loop, root, "live", sc, case_base, rec, full_prefixes, lean_jobs)
-            if mode is None:
-                faults = list(range(n_ops))
-                if max_faults is not None and len(faults) > max_faults:
-                    faults = faults[:max_faults]
-        kinds = {}
-        for j in faults or []:
-            # errno of the injected OSError: a rename is tried with every errno a fallback could
-            # plausibly be keyed on (EBUSY bind mount, EXDEV other device, EACCES/EPERM held open)
-            errnos = [only_errno if only_errno is not None else 16]
-            for n, errno_ in enumerate(errnos):
-                sub = "fault%d_%d" % (j, errno_)
-                sc = _scenario(ctx, loop, root, sub, label, old_devs, new_devs)
-                if sc is None:
-                    return
-                rec = Recorder(sc["work"], fault_at=j, fault_errno=errno_)
-                _observe(ctx, loop, root, sub, sc, dict(case_base, mode="fault:%d:%d" % (j, errno_)), rec, False, lean_jobs)
-                if n == 0 and rec.fault_kind == "rename" and only_errno is None:
-                    errnos += [18, 13, 1]
-                elif n == 0 and rec.fault_kind in ("write", "flush", "fsync", "close") and only_errno is None:
-                    errnos += [28]
+            if obs_final not in (("ok", content_old), ("ok", content_new)):
+                ctx.fail("save-failed:old-content-lost", case, obs_final, content_old,
+                         "save() raised %s and the file holds neither the previous nor the new content" % raised)
+
+        # --- crash points: real step-by-step materialisation + oracle
+        groups, states, seen_states = [], [], set()
+        replayable = not any(op[0] == "x" for op in trace)
+        for i in range(len(trace) + 1) if replayable else []:
+            probe = _Replayer(os.path.join(root, "probe%d" % i), kind, old_bytes, extras)
+            try:
+                for op in trace[:i]:
+                    probe.step(op)
+                tp, others = probe.pending_lengths()
+            except OSError:
+                probe.close_all()
+                break
+            probe.close_all()
+            shutil.rmtree(probe.root, ignore_errors=True)
+            pend_len = tp if tp else others
+            row = {}
+            for k in _prefixes(pend_len, full_prefixes):
+                r = _Replayer(os.path.join(root, "c%d_%d" % (i, k)), kind, old_bytes, extras)
+                for op in trace[:i]:
+                    r.step(op)
+                r.crash(k)
+                content = read_through(r.settings)
+                obs = _fresh_load(loop, r.settings)
+                if want_states:
+                    lst = listing(r.root)
+                    key = json.dumps({a: (b.hex() if isinstance(b, bytes) else b) for a, b in sorted(lst.items())})
+                    if key not in seen_states:
+                        seen_states.add(key)
+                        ex = {a: b for a, b in lst.items() if isinstance(b, bytes) and os.path.realpath(os.path.join(r.root, a)) != os.path.realpath(r.settings)}
+                        states.append((content, ex))
+                shutil.rmtree(r.root, ignore_errors=True)
+                inside = (0 < i < len(trace)) or k not in (0, pend_len)
+                ctx.case([sc["pair"], kind, mode, sorted((sc.get("extras") or {}).items()), sc.get("old_hex"), i, k], inside)
+                ctx.note("crash-point:%s" % ("boundary" if k in (0, pend_len) else "inside-write"))
+                if tp:
+                    row[k] = content
+                else:
+                    row.setdefault(0, content)
+                if obs not in (("ok", content_old), ("ok", content_new)):
+                    if obs[0] == "raises":
+                        sig = "save-crash:%s:load-raises" % ("empty-file" if content == b"" else "truncated-file" if content is not None and final_target is not None and len(content) < len(final_target) and final_target.startswith(content) else "damaged-file")
+                    else:
+                        sig = "save-crash:loads-neither-old-nor-new"
+                    if fault:
+                        sig += ":after-failed-" + fault
+                    if kind != "plain":
+                        sig += ":" + kind
+                    if extras:
+                        sig += ":leftover-directory"
+                    ctx.fail(sig, dict(case, crash_after_ops=i, persisted_prefix=k, target_hex=_hex(content)),
+                             obs, "load() gives the complete old or the complete new settings",
+                             "%s%s%sprocess death after %d of %d file operations of save() (persisted prefix %d) leaves a settings "
+                             "file that %s" % ("settings path kind %s: " % kind if kind != "plain" else "",
+                                               "directory holds leftovers of an earlier crashed save: " if extras else "",
+                                               "with the %s at file operation %d failing (OSError %d), " % (fault, fault_at, fault_errno) if fault else "",
+                                               i, len(trace), k, "load() rejects" if obs[0] == "raises" else "is neither old nor new"))
+            groups.append((tp, row))
+        if replayable:
+            lean_jobs.append({"case": case, "old": old_bytes, "new": final_target if final_target is not None else b"",
+                              "init": init_words, "words": words, "groups": groups, "raised": raised, "fault": fault,
+                              "final": final_target, "unknown": bool(unknown)})
+        return {"n_ops": len(trace), "states": states}
     finally:
+        os.chdir(cwd0)
         shutil.rmtree(root, ignore_errors=True)
 
 
 def compare_with_model(ctx, jobs):
-    lines = ["crash p0 %s %s %s" % (_hex(old), new.hex() or "-", " ".join(words))
-             for (_c, old, new, words, _g, _r, _o, _f) in jobs]  # _o = injected fault kind
-    answers = ctx.lean(lines)
-    for (case, old, new, words, groups, raised, fault, final), ans in zip(jobs, answers):
+    jobs = [j for j in jobs if not j["unknown"]]
+    lines = ["crashx p0 %s %s %s %s" % (_hex(j["old"]), j["new"].hex() or "-", ",".join(j["init"]) or "-", " ".join(j["words"]))
+             for j in jobs]
+    answers = ctx.lean(lines) if lines else []
+    for j, ans in zip(jobs, answers):
+        case, old, new, groups, fault = j["case"], j["old"], j["new"], j["groups"], j["fault"]
         ctx.validated()
         parts = ans.split(" ")
         if len(parts) != 3:
-            ctx.disagree(case, "trace of %d ops" % len(words), ans, where="driver answer")
+            ctx.disagree(case, "trace of %d ops" % len(j["words"]), ans, where="driver answer")
             continue
         safe, mfinal, mgroups = parts
         mgroups = [g.split(",") for g in mgroups.split("/")]
         ctx.note(("fault-" if fault else "") + "model-safeSave:%s" % safe)
-        if fault and safe != "1":
-            touched = any(len(g) > 1 or g[0] != _hex(old) for g in mgroups)
-            ctx.note("fault-trace-touches-target:%s" % ("yes" if touched else "no"))
-        if mfinal != _hex(final):
-            ctx.disagree(case, _hex(final), mfinal, where="target content after the complete trace")
+        if mfinal != _hex(j["final"]):
+            ctx.disagree(case, _hex(j["final"]), mfinal, where="target content after the complete trace")
         if len(mgroups) != len(groups):
             ctx.disagree(case, len(groups), len(mgroups), where="number of crash points")
             continue
@@ -657,24 +827,80 @@ def compare_with_model(ctx, jobs):
         allc = {c for g in mgroups for c in g}
         if safe == "1" and not allc <= {_hex(old), _hex(new)}:
             ctx.disagree(case, sorted(allc), "safeSaveB = true", where="safe_atomic instance (model inconsistent with its theorem)")
-        if raised is None and safe != "1" and not fault:
-            # not a violation by itself (the oracle judges); recorded so that a changed save shape is visible
+        if j["raised"] is None and safe != "1" and not fault:
             ctx.note("completed-save-not-of-safe-shape")
+
+
+# --------------------------------------------------------------------------- enumeration
+
+FAULT_ERRNOS = {"rename": [16, 18, 13, 1], "link": [16, 18], "write": [16, 28], "flush": [16, 28], "fsync": [16, 28],
+                "close": [16, 28], "open": [16, 13], "unlink": [16]}
+
+
+def with_faults(ctx, loop, sc, full, jobs, want_states=False):
+    """ordinary run, then one run per recorded operation with a single injected fault"""
+    res = run_scenario(ctx, loop, sc, full, jobs, want_states=want_states)
+    if res is None or sc.get("mode") is not None:
+        return res
+    for j in range(res["n_ops"]):
+        first = dict(sc, mode="fault:%d:16" % j)
+        jobs_before = len(jobs)
+        run_scenario(ctx, loop, first, False, jobs)
+        kind = jobs[-1]["fault"] if len(jobs) > jobs_before else None
+        for errno_ in FAULT_ERRNOS.get(kind, [16])[1:]:
+            run_scenario(ctx, loop, dict(sc, mode="fault:%d:%d" % (j, errno_)), False, jobs)
+    return res
+
+
+def second_saves(ctx, loop, sc, states, jobs, limit):
+    """every distinct crash state of the first save is the initial directory of a second
+    save of shorter and of longer content"""
+    states = sorted(states, key=lambda s: (-len(s[1]), -sum(len(v) for v in s[1].values())))[:limit]
+    for n, (target, extras) in enumerate(states):
+        for tag, new2 in (("shorter", [_dev(0, cred="k")]), ("longer", BIG[:3] + [_dev(7, cred=UNI)])):
+            sc2 = {"pair": "%s+second:%s" % (sc["pair"], tag), "kind": sc.get("kind") or "plain",
+                   "old_hex": None if target is None else target.hex(),
+                   "extras": {r: v.hex() for r, v in extras.items()}, "new": new2, "mode": None, "pid": os.getpid()}
+            ctx.note("second-save:%s:leftovers=%d" % (tag, len(extras)))
+            run_scenario(ctx, loop, sc2, False, jobs)
 
 
 def run(ctx, only=None):
     loop = asyncio.new_event_loop()
     jobs = []
     try:
-        pairs = fixed_pairs() + random_pairs(ctx.rng.fork("pairs"), ctx.scale(4, 40))
         if only is not None:
-            pairs = only
-        for idx, (label, old, new, mode) in enumerate(pairs):
-            full = ctx.thorough and idx % 3 == 0
+            for sc in only:
+                run_scenario(ctx, loop, sc, False, jobs)
+        else:
+            gen = tempfile.mkdtemp(prefix="verif-c15-gen-", dir="/tmp")
             try:
-                run_pair(ctx, loop, label, old, new, mode, full, jobs)
-            except Exception as e:  # changed code must not crash the harness
-                ctx.disagree({"pair": label}, "harness step raised %s: %s" % (type(e).__name__, e), "n/a", where="run_pair")
+                pairs = fixed_pairs() + random_pairs(ctx.rng.fork("pairs"), ctx.scale(3, 30))
+                scs = []
+                for label, old, new, mode in pairs:
+                    ob = old_bytes_of(loop, gen, old)
+                    scs.append({"pair": label, "kind": "plain", "old_hex": None if ob is None else ob.hex(), "extras": {},
+                                "new": new, "mode": mode})
+            finally:
+                shutil.rmtree(gen, ignore_errors=True)
+            by_label = {s["pair"]: s for s in scs}
+            chain = {"grow", "shrink", "unicode", "nofile->nonempty"} | ({s["pair"] for s in scs if s["pair"].startswith("random")} if ctx.thorough else set())
+            for idx, sc in enumerate(scs):
+                try:
+                    res = with_faults(ctx, loop, sc, ctx.thorough and idx % 3 == 0, jobs, want_states=sc["pair"] in chain)
+                    if res and sc["pair"] in chain:
+                        second_saves(ctx, loop, sc, res["states"], jobs, ctx.scale(3, 8))
+                except Exception as e:  # changed code must not crash the harness
+                    ctx.disagree({"pair": sc["pair"]}, "harness step raised %s: %s" % (type(e).__name__, e), "n/a", where="run_scenario")
+            kind_pairs = ["grow", "shrink", "nofile->nonempty"] + (["unicode", "nonempty->emptylist", "random0", "random1"] if ctx.thorough else [])
+            for kind in PATH_KINDS[1:]:
+                for label in kind_pairs:
+                    if label not in by_label:
+                        continue
+                    try:
+                        with_faults(ctx, loop, dict(by_label[label], kind=kind), False, jobs)
+                    except Exception as e:
+                        ctx.disagree({"pair": label, "kind": kind}, "harness step raised %s: %s" % (type(e).__name__, e), "n/a", where="run_scenario")
     finally:
         loop.run_until_complete(loop.shutdown_default_executor())
         loop.close()
@@ -684,6 +910,7 @@ def run(ctx, only=None):
 
 def replay(ctx, failure):
     case = failure["case"]
+    sc = {k: case.get(k) for k in ("pair", "kind", "old_hex", "extras", "new", "mode", "pid")}
     c2 = type(ctx)(ctx.prop, ctx.tier, ctx.seed, ctx.driver.driver_rel)
-    run(c2, only=[(case["pair"], case.get("old"), case.get("new"), case.get("mode"))])
+    run(c2, only=[sc])
     return bool(c2.failures)
